@@ -230,7 +230,11 @@ class Check:
             samples.extend(r.samples[:2])
             witnesses += r.witnesses
             obligations += r.obligations
-        vacuous = [r.name for r in self.results if r.witnesses == 0 and not r.fault]
+        wit = {}
+        for r in self.results:
+            base = r.name.split("[")[0]
+            wit[base] = wit.get(base, 0) + r.witnesses + (1 if r.fault else 0)
+        vacuous = [b for b, w in wit.items() if w == 0]
         repo_items = sorted(i for i in items)
         ev = dict(
             property_id=self.prop, tier=self.tier, seed=self.seed, level=level,
